@@ -3,6 +3,7 @@ C03, `build_total`: the parser model never ends in a panic outcome — for every
 fuel.  (`parse` = PEG interpreter over the regenerated grammar, AST builders, label validation.)
 -/
 import Emu2a.Props.C03x.Instr
+import Emu2a.Lemmas.PegFuel
 namespace Emu2a.C03
 open Emu2a.Parse Emu2a.Peg Emu2a.Asm
 
@@ -128,5 +129,17 @@ theorem parse_never_panics (fuel : Nat) (input : String) (s : String) : parse fu
         intro hres
         exact validate_no_panic lv s (by rw [hv, hres])
       · simp
+
+/-- The static height of the `file` rule of the regenerated grammar (kernel evaluation). -/
+theorem file_height : H Gen.mrasm 100 (.rule "file") = some 80 := by decide +kernel
+
+/-- **The parser model decides every input**: with the fuel the driver uses, the interpreter never
+answers "out of fuel" — `syntaxError` from the model is a real rejection by the grammar, not a resource
+artefact. -/
+theorem parse_decides (input : String) :
+    run Gen.mrasm (defaultFuel input) (.rule "file") true input.toList ≠ .oof := by
+  apply run_not_oof Gen.mrasm 100 _ 80 file_height
+  unfold defaultFuel
+  omega
 
 end Emu2a.C03
